@@ -78,6 +78,26 @@ def exec_step(world: W.World, step: dict, ctx: seam.Ctx, fault=None, fp=False, e
         W.evict_caches(step["p"]["which"])
         out.canon = ("s", "env", "evict")
         return out
+    if name == "$poke":
+        # the client edits an object it owns: a result that no step has used and that shares no memory with the
+        # operands it was computed from (`r[i] = r[i] + 1`, Tensor.__setitem__ is the public mutator). The object
+        # leaves the pool; nothing else -- operand, module constant, cache entry, later answer -- may notice.
+        out.canon = ("s", "env", "poke")
+        slot = step["args"][0]
+        if not world.has(slot):
+            out.status = "skipped"
+            return out
+        obj = world.get(slot)
+        a = getattr(obj, "array", None)
+        if isinstance(a, np.ndarray) and a.size and a.dtype.kind in "biufc" and a.flags.writeable:
+            idx = tuple(int(x) for x in np.unravel_index(step["p"]["flat"] % a.size, a.shape))
+            val = (not bool(a[idx])) if a.dtype.kind == "b" else a[idx] + 1
+            try:
+                obj[idx if idx else Ellipsis] = val
+            except Exception:  # noqa: BLE001 -- classes whose __setitem__ wants another index form
+                a[idx] = val
+        world.drop(slot)
+        return out
     try:
         args = [world.get(s) for s in step["args"]]
     except KeyError:
@@ -264,6 +284,10 @@ class Gen:
         if rng.random() < cfg["p_evict_step"]:
             return {"i": i, "c": client, "op": "$evict", "args": [], "p": {"which": rng.choice([1, 2, 3])}, "out": [],
                     "mode": "env"}
+        if rng.random() < cfg.get("p_poke", 0.0):
+            st = self.poke_step(i, client, history)
+            if st is not None:
+                return st
         queries = [h for h in history if h["mode"] != "env" and h.get("status") == "ok"]
         if queries and rng.random() < cfg["p_reask"]:
             h = rng.choice(queries)
@@ -319,12 +343,69 @@ class Gen:
         return {"i": i, "c": client, "op": "props", "args": [sorted(self.world.slots)[0]], "p": None, "out": [],
                 "mode": "typed"}
 
+    # results that are process-wide objects by design: the cached epsilon/delta arrays, the module constants
+    NO_POKE = ("eps", "delta", "aug_eps", "aug_delta", "const", "asarray", "asarray_c", "props", "repr",
+               "infty_hyperplane")
+    # constructors documented to copy their argument ("copy: If True (default), then the object is copied"): their
+    # result is the caller's own even though it was made from one operand
+    FRESH_BY_CONTRACT = ("reconstruct", "quadric_normalize", "quadric_from_tensor", "pointcoll_homogenize")
+
+    def poke_step(self, i, client, history):
+        """A `$poke` on a result that no step has used so far and that shares no memory with its own operands."""
+        used = set()
+        for h in history:
+            used.update(h.get("args") or [])
+        cands = []
+        for h in history:
+            if h.get("status") != "ok" or h["mode"] == "env" or h["op"] in self.NO_POKE or h["op"].startswith("u_"):
+                continue
+            for s_ in h.get("out") or []:
+                if s_ in used or not self.world.has(s_):
+                    continue
+                o = self.world.slots[s_]
+                a = getattr(o, "array", None)
+                if not (isinstance(o, Tensor) and isinstance(a, np.ndarray) and a.size and a.dtype.kind in "biufc"):
+                    continue
+                # by design many results are views of their operands or of each other (indexing, vertices, components
+                # of a degenerate quadric, copy(), copy=False, ...): a result is the caller's own only if it shares
+                # memory with no other live object -- or comes from a constructor that promises a copy
+                shares = False
+                for t_, x in self.world.slots.items():
+                    if t_ == s_ or (h["op"] in self.FRESH_BY_CONTRACT and t_ in h["args"]):
+                        continue
+                    for arr in _arrays_of(x):
+                        if np.may_share_memory(a, arr):
+                            shares = True
+                            break
+                    if shares:
+                        break
+                if not shares:
+                    cands.append(s_)
+        if not cands:
+            return None
+        slot = self.rng.choice(cands)
+        return {"i": i, "c": client, "op": "$poke", "args": [slot], "p": {"flat": self.rng.randrange(1 << 16)},
+                "out": [], "mode": "env"}
+
     def after(self, step: dict, world: W.World) -> None:
         for s in step["out"]:
             if world.has(s) and self.rng.random() < 0.35:
                 self.hot.append(s)
                 if len(self.hot) > self.cfg["hot"] + 2:
                     self.hot.pop(0)
+
+
+def _arrays_of(x, depth=0):
+    """coordinate arrays reachable from an operand (its own, cached subspaces, elements of a list argument)"""
+    if isinstance(x, np.ndarray):
+        yield x
+    elif isinstance(x, Tensor) and depth < 3:
+        for v in x.__dict__.values():
+            if isinstance(v, (np.ndarray, Tensor)):
+                yield from _arrays_of(v, depth + 1)
+    elif isinstance(x, (list, tuple)) and depth < 2:
+        for v in x:
+            yield from _arrays_of(v, depth + 1)
 
 
 def new_ctx(trace_ws=False) -> seam.Ctx:
@@ -384,7 +465,7 @@ def golden_run(case: dict, rng: random.Random | None, stats: dict) -> tuple[list
             store_outputs(world, step, out)
             if gen is not None:
                 gen.after(step, world)
-        full = (i % 4 == 3) or len(world.slots) <= 40
+        full = (i % 4 == 3) or len(world.slots) <= 40 or step["op"] == "$poke"
         v = env_violation(out, step) or o1_check(world, step["args"], step["i"], step["op"], full=full)
         if v is not None:
             return history, v
